@@ -58,7 +58,11 @@ def strategy(stratum, tier):
         flags=norm_flags(),
         L=gens.st_L(0.3, 30.0),
         cutoff=st.integers(0, 8),
-        offset=st.one_of(st.just([0.0, 0.0]), st.tuples(gens.coef(-2, 2), f(0.0, 1.0)).map(lambda t: [t[0], t[0] + (t[1] if t[1] > 0.3 else 0.0)])),
+        offset=st.one_of(
+            st.just([0.0, 0.0]),
+            st.tuples(gens.coef(-2, 2), f(0.0, 1.0)).map(lambda t: [t[0], t[0] + (t[1] if t[1] > 0.3 else 0.0)]),
+            st.sampled_from([[-1.0, 1.0], [-0.5, 0.5], [0.0, 1.0], [-2.0, 0.0]]),
+        ),
         p=f(0.5, 5.0),
         intensity=gens.log_floats(1e-5, 0.1),
         std=f(0.1, 3.0),
